@@ -52,6 +52,13 @@ def build_cases(tier, seed):
         cs.append(("expand", r))
     for c in fam.prof_list(W3, 2, (1, F(3, 2)), c3):
         cs.append(("addres", c))
+    # uncondensed profiles: a ranking repeated on another ballot with a different weight (profiles are not merged first)
+    for k, (cands_, bl) in enumerate(fam.prof_list(W3, 2, (1, F(3, 2)), c3)):
+        if k % (2 if tier == "quick" else 1) == 0:
+            cs.append(("addres", (cands_, bl + ((bl[0][0], 5),))))
+            cs.append(("addres", (cands_, ((bl[-1][0], F(1, 3)),) + bl)))
+        if k % (4 if tier == "quick" else 2) == 0:
+            cs.append(("remove", (cands_, bl + ((bl[0][0], 5),))))
     # cleaning module: untied ballots with repetitions and blanks as the loaders produce them
     alpha = c3 + (None,)
     seqs = [s for L in range(1, 4) for s in itertools.product(alpha, repeat=L)]
@@ -65,7 +72,7 @@ def build_cases(tier, seed):
         "family": "remove_cand: ballots listing a candidate twice (all sequences of length 2..3 over {A,B,C} with a repeat, tied positions with a repeat) "
                   "alone and paired with other ballots; Prof(Weak(3),2,W) as profile / ballot tuple x every subset of {A,B,C,Z} (as list, singletons also as str) x condense x "
                   "leave_zero_weight_ballots; every single ballot of Weak(3) (with and without scores) and Weak(4); expand_tied_ballot on Weak(3)/Weak(4); "
-                  "add_missing_cands / resolve_profile_ties on Prof(Weak(3),2,{1,3/2}); cleaning functions on ballots over {A,B,C,blank} of length <= 3 "
+                  "add_missing_cands / resolve_profile_ties on Prof(Weak(3),2,{1,3/2}) and on uncondensed variants (a ranking repeated on another ballot with weight 5 or 1/3); cleaning functions on ballots over {A,B,C,blank} of length <= 3 "
                   "with repetitions, profiles of up to 2 (quick) / 3 such ballots in every order",
         "assumptions": ["cleaning-module functions are judged on whole positions (they operate on positions, as documented in the property)",
                         "a helper that does not merge non-adjacent equal ballots is not penalised: weights are summed per resulting ranking"],
